@@ -9,7 +9,7 @@ compensates its column-major order; (R3) quoting: a string value reaches a quote
 through an escaping function of that back-end; (R4) boolean literal tables; (R5) every emission
 site renames the parameter exactly once, selection replaces the exported set and parse iterates
 nothing else, the data formats are identical up to the dumper; (R6) no per-parameter state leaks
-from one loop iteration into the next. NOT decided: acceptance by the foreign tool chains."""
+from one loop iteration into the next. NOT decided: acceptance by the foreign tool chains. Also: recursive array walkers do not change their parameters in place; type cells are evaluated by concrete partial evaluation of the mapping code (table-driven or ladder-shaped)."""
 import ast
 import itertools
 
